@@ -19,6 +19,10 @@ pub struct Monitor {
     shards: usize,
     /// per shard: visible segment label -> file set at first visibility
     first: Vec<BTreeMap<String, FileSet>>,
+    /// identity (inode, birth time) of the directory at first visibility
+    ident: Vec<BTreeMap<String, (u64, u128)>>,
+    pub tolerate_empty_orphan: bool,
+    pub tolerated: u64,
     /// labels that were visible once and have disappeared
     gone: Vec<BTreeSet<String>>,
     pub snapshots: usize,
@@ -94,6 +98,17 @@ fn crc32(data: &[u8]) -> u32 {
     !crc
 }
 
+fn dir_identity(dir: &Path) -> (u64, u128) {
+    use std::os::unix::fs::MetadataExt;
+    match std::fs::metadata(dir) {
+        Ok(m) => (
+            m.ino(),
+            m.created().ok().and_then(|t| t.duration_since(std::time::UNIX_EPOCH).ok()).map(|d| d.as_nanos()).unwrap_or(0),
+        ),
+        Err(_) => (0, 0),
+    }
+}
+
 fn hash_dir(dir: &Path) -> FileSet {
     let mut out = FileSet::new();
     if let Ok(rd) = std::fs::read_dir(dir) {
@@ -117,6 +132,9 @@ impl Monitor {
             root: root.to_path_buf(),
             shards,
             first: vec![BTreeMap::new(); shards],
+            ident: vec![BTreeMap::new(); shards],
+            tolerate_empty_orphan: false,
+            tolerated: 0,
             gone: vec![BTreeSet::new(); shards],
             snapshots: 0,
             segments_seen: 0,
@@ -162,6 +180,11 @@ impl Monitor {
                 if !dir.is_dir() {
                     return Some(("named-segment-missing".into(), json!({"at": what, "shard": s, "segment": label, "in_index": indexed.contains_key(label), "in_live_list": live.contains(label), "log": db.log})));
                 }
+                if files.is_empty() && indexed.get(label).is_none() && self.tolerate_empty_orphan {
+                    // open known finding: an empty directory left behind is listed as live after a restart
+                    self.tolerated += 1;
+                    continue;
+                }
                 if uids.is_empty() && indexed.get(label).is_none() {
                     return Some(("named-segment-incomplete".into(), json!({"at": what, "shard": s, "segment": label, "files": files.keys().collect::<Vec<_>>(), "why": "live-listed directory without any complete event type", "in_live_list": live.contains(label), "after_restart": after_restart, "log": db.log})));
                 }
@@ -185,24 +208,28 @@ impl Monitor {
                     self.gone[s].remove(label);
                 }
                 // I1: immutable while visible
+                let ident_now = dir_identity(&dir);
                 match self.first[s].get(label) {
                     None => {
                         self.first[s].insert(label.clone(), files);
+                        self.ident[s].insert(label.clone(), ident_now);
                         self.segments_seen += 1;
                     }
                     Some(f0) => {
-                        let recreated = !files.is_empty() && !files.iter().any(|(k, v)| f0.get(k) == Some(v));
-                        if *f0 != files && recreated {
-                            // not one file in common: the directory was retired and re-created under
-                            // the same id between two snapshots (id reuse, I2)
-                            self.id_reuse_seen = true;
-                            if !self.tolerate_id_reuse {
-                                return Some(("segment-id-reused".into(), json!({"at": what, "shard": s, "segment": label, "log": db.log})));
+                        if *f0 != files {
+                            if self.ident[s].get(label) != Some(&ident_now) {
+                                // another directory under the same name: retired and re-created between
+                                // two snapshots (id reuse, I2)
+                                self.id_reuse_seen = true;
+                                if !self.tolerate_id_reuse {
+                                    return Some(("segment-id-reused".into(), json!({"at": what, "shard": s, "segment": label, "log": db.log})));
+                                }
+                                self.first[s].insert(label.clone(), files);
+                                self.ident[s].insert(label.clone(), ident_now);
+                            } else {
+                                let changed: Vec<String> = files.iter().filter(|(k, v)| f0.get(*k) != Some(v)).map(|(k, _)| k.clone()).chain(f0.keys().filter(|k| !files.contains_key(*k)).cloned()).collect();
+                                return Some(("visible-segment-changed".into(), json!({"at": what, "shard": s, "segment": label, "changed_files": changed, "log": db.log})));
                             }
-                            self.first[s].insert(label.clone(), files);
-                        } else if *f0 != files {
-                            let changed: Vec<String> = files.iter().filter(|(k, v)| f0.get(*k) != Some(v)).map(|(k, _)| k.clone()).chain(f0.keys().filter(|k| !files.contains_key(*k)).cloned()).collect();
-                            return Some(("visible-segment-changed".into(), json!({"at": what, "shard": s, "segment": label, "changed_files": changed, "log": db.log})));
                         }
                     }
                 }
@@ -223,6 +250,7 @@ fn run_case(c: &Case, rep: &mut CaseReport) -> Verdict {
         Ok((run, fail)) => {
             let m = run.snapshots.as_ref().unwrap();
             rep.sub_evals += m.snapshots as u64;
+            rep.excluded_known += m.tolerated;
             if run.lifetimes > 1 && m.segments_seen >= 3 {
                 rep.nontrivial = true;
             }
@@ -241,6 +269,7 @@ fn run_case(c: &Case, rep: &mut CaseReport) -> Verdict {
     }
 }
 
+pub static TOLERATE_EMPTY_ORPHAN: std::sync::atomic::AtomicBool = std::sync::atomic::AtomicBool::new(false);
 pub static TOLERATE_ID_REUSE: std::sync::atomic::AtomicBool = std::sync::atomic::AtomicBool::new(false);
 
 pub fn is_c11_sig(sig: &str) -> bool {
@@ -265,6 +294,7 @@ pub fn run(ctx: &Ctx) -> i32 {
     replay_known(ctx, &stats, &mut report, &replay);
     replay_regressions(ctx, &stats, &mut report, &replay);
     TOLERATE_ID_REUSE.store(ctx.open("layout.segment_id_reuse"), std::sync::atomic::Ordering::Relaxed);
+    TOLERATE_EMPTY_ORPHAN.store(ctx.open("layout.empty_orphan_directory"), std::sync::atomic::Ordering::Relaxed);
     let mut cl = c01::classes(ctx);
     // C11 has its own finding classes
     cl.excl_flush_steps = ctx.open("crash.step_in_flush");
